@@ -42,6 +42,7 @@ type srvCfg struct {
 	stallPct   int  // % of synchronous answers whose transport write stalls until resumed
 	largePct   int  // % of requests (hence echoed answers) larger than the 1 KiB pooled write buffer
 	lazyResume bool // stalled writes are resumed reluctantly, so that several pile up
+	malformedOnly []int // restrict undecodable messages to these kinds (indexes into malformedKinds)
 	nilHandler bool // the Server (and dialled connections) get a nil Handler: diam.DefaultServeMux serves
 	tlsStall   bool // one more peer connects over TLS and never gets through its handshake
 	force      *srvForce // enumerated fault placement (sweep)
@@ -357,7 +358,7 @@ func (w *srvWorld) genConn(i int, dialled, late bool) *peerConn {
 		if cfg.table {
 			// include applications that fall back to the base dictionary
 			if t.Chance(1, 4) {
-				m.App = []uint32{1001, 1002, 4242, 0xffffffff}[t.Draw(4)]
+				m.App = []uint32{1001, 1002, 4242, 0xffffffff, 4, 16777251}[t.Draw(6)]
 				m.Cmd = []uint32{900, 901, 910, 280}[t.Draw(4)]
 			}
 			isReq = t.Chance(1, 2)
@@ -454,11 +455,14 @@ func (w *srvWorld) genConn(i int, dialled, late bool) *peerConn {
 }
 
 // genMalformed builds an undecodable item followed by trailing valid-looking data.
-var malformedKinds = []string{"avp-len-lt-8", "avp-len-gt-container", "vflag-short", "unknown-command", "decl-len-short", "garbage", "avp-len-zero-nested", "stray-tail-small", "stray-tail-large"}
+var malformedKinds = []string{"avp-len-lt-8", "avp-len-gt-container", "vflag-short", "unknown-command", "decl-len-short", "garbage", "avp-len-zero-nested", "stray-tail-small", "stray-tail-large", "command-of-parent-application"}
 
 func (w *srvWorld) forcedMalformed() int {
 	if w.cfg.force != nil {
 		return w.cfg.force.malformed
+	}
+	if only := w.cfg.malformedOnly; len(only) > 0 {
+		return only[w.e.T.Draw(len(only))]
 	}
 	return -1
 }
@@ -499,6 +503,12 @@ func genMalformedKind(t *Tape, conn, k int, forced int) (string, []byte) {
 	case "unknown-command":
 		m := good
 		m.Cmd = 7777
+		b = m.Bytes()
+	case "command-of-parent-application":
+		// a command code that exists, but neither in the message's application nor in the base one
+		m := good
+		pick := [][2]uint32{{16777251, 920}, {16777251, 922}, {4, 922}, {4, 921}, {1001, 920}}[t.Draw(5)]
+		m.App, m.Cmd = pick[0], pick[1]
 		b = m.Bytes()
 	case "decl-len-short":
 		m := good
@@ -1031,6 +1041,15 @@ func (w *srvWorld) quiesceAndCheck() bool {
 					ok = true
 				}
 			}
+			if !ok && r.Conn != nil {
+				// the report of a connection that met its planned undecodable message
+				for _, pc := range w.conns {
+					if pc.faultAt >= 0 && pc.faultAt < len(pc.msgs) && pc.msgs[pc.faultAt].bad != "" && pc.sent > pc.msgs[pc.faultAt].start &&
+						pc.sc.RemoteAddr() != nil && r.Conn.RemoteAddr() == pc.sc.RemoteAddr() {
+						ok = true
+					}
+				}
+			}
 			if !ok {
 				e.Fail("C09/spurious-error-report", "an ErrorReport was offered for a message that has a handler: %v", r.Error)
 				return false
@@ -1479,8 +1498,8 @@ func sortedStrKeys(m map[string]string) []string {
 	return ks
 }
 
-var c09IdxCands = [][2]uint32{{0, 900}, {0, 901}, {0, 280}, {1001, 900}, {1001, 910}, {1002, 910}, {1001, 901}, {1002, 900}, {4242, 900}, {0, 910}, {0xffffffff, 900}, {0xffffffff, 901}, {1002, 8388700}, {1003, 8388700}, {1002, 8388701}}
-var c09Names = []string{"XA", "XB", "DW", "YA", "YC", "ZC", "CE", "ZV"}
+var c09IdxCands = [][2]uint32{{0, 900}, {0, 901}, {0, 280}, {1001, 900}, {1001, 910}, {1002, 910}, {1001, 901}, {1002, 900}, {4242, 900}, {0, 910}, {0xffffffff, 900}, {0xffffffff, 901}, {1002, 8388700}, {1003, 8388700}, {1002, 8388701}, {4, 920}, {16777251, 921}, {16777251, 920}, {4, 900}, {1, 922}}
+var c09Names = []string{"XA", "XB", "DW", "YA", "YC", "ZC", "CE", "ZV", "PA", "SA", "NA"}
 
 func (w *srvWorld) snapshot() {
 	if w.regHist == nil {
